@@ -24,7 +24,7 @@ if "--write" in sys.argv:
     a = s.index("### 11.6 Seeded changes")
     b = s.index("### 11.7 Harmless refactors")
     head = s[a:].split("\n", 1)[0]
-    s = s[:a] + head + "\n\nEvery change below was produced by a fresh sub-agent that saw only the property text and a scratch worktree of /repo - nothing from /verif.  Session 1\n(2026-09-26): the names `-A`, `-B` of C01-C12, C17, C18 (and C03-C/D ... C18-C/D).  Session 2 (2026-09-28): `C13-*`, `C14-*`, `C15-*`, the names `-C` ... `-H` of C08, `-C`, `-D` of C09, C12, C17 and `C02-C`, `C04-E`, `C06-E`, `C07-D`; these agents were additionally told which source area to aim at (the functions brought under contract in\nsession 2) and, from `C15-A` on, to make a small local change rather than a rewrite.  I confirmed each one (existing suite passes, the agent's\ndemonstration fails with the change and passes without it) and then ran the checks with `VERIF_REPO` pointing at the changed tree\n(tools/seedtest.py); patch, demonstration and the full record are in `seeded/<name>/`.  `UNDECIDED (exit 2)` rows are discussed in §12.5 (rewrites).\n\n" + table + "\n\n" + s[b:]
+    s = s[:a] + head + "\n\nEvery change below was produced by a fresh sub-agent that saw only the property text and a scratch worktree of /repo - nothing from /verif.  Session 1\n(2026-09-26): the names `-A`, `-B` of C01-C12, C17, C18 (and C03-C/D ... C18-C/D).  Session 2 (2026-09-28): `C13-*`, `C14-*`, `C15-*`, the names `-C` ... `-H` of C08, `-C`, `-D` of C09, C12, C17 and `C02-C`, `C06-E`; session 3 (2026-09-28, later; §14.3): `C02-D/E`, `C03-E/F`, `C04-F`, `C05-F`, `C06-G`, `C07-D/E`, `C08-I/J`, `C09-E/F`, `C10-C/D`, `C11-E/F`, `C12-E/F`, `C18-E/F`.  The session-2 agents were additionally told which source area to aim at (the functions brought under contract in\nsession 2) and, from `C15-A` on, to make a small local change rather than a rewrite.  I confirmed each one (existing suite passes, the agent's\ndemonstration fails with the change and passes without it) and then ran the checks with `VERIF_REPO` pointing at the changed tree\n(tools/seedtest.py); patch, demonstration and the full record are in `seeded/<name>/`.  `UNDECIDED (exit 2)` rows are discussed in §12.5 (rewrites).\n\n" + table + "\n\n" + s[b:]
     open(p, "w").write(s)
 else:
     print(table)
